@@ -120,6 +120,9 @@ theorem game_state_initial : GameState_initial = GameState.initial := rfl
 
 theorem game_state_eq (a b : GameState) : GameState_eq a b = (a.hash == b.hash) := rfl
 
+/-- `impl Hash for GameState` (the hasher is the list of words written to it): exactly the board-state hash -/
+theorem game_state_hash (s : GameState) (st : List BB) : GameState_hash s st = st ++ [s.hash] := rfl
+
 theorem zobrist_board_state_hash (h : BB) : Zobrist_board_state_hash h = h := rfl
 
 theorem hash_history_contains_hash_twice_eq (hist : List BB) (h : BB) :
